@@ -1598,3 +1598,330 @@ impl Property for C16 {
         ctx.enumerate("fixtures", total, true, |i, rec| fixture_item(&fonts[i as usize], rec));
     }
 }
+
+// ------------------------------------------------------------------------------------ libFuzzer decoder
+//
+// `case_from_bytes` maps fuzz bytes onto the `Case` domain of `case_strategy()` (section `tables`) or,
+// when the first byte selects it, of `chain_strategy()` (section `chains`). Every value it produces is
+// one the proptest strategy can produce (same ranges, same collection sizes, same per-glyph delta
+// style, same post-processing of chain links); selectors keep roughly the strategy's weights.
+// `Unstructured` yields the lower bound / zero / false once the input is exhausted, and collections stop
+// growing at their minimum size then, so short inputs decode to small cases.
+
+use arbitrary::Unstructured;
+
+type UResult<T> = arbitrary::Result<T>;
+
+const DELTA_SPECIALS: [i16; 11] = [1, -1, 255, -255, 256, -256, 127, 128, -128, 254, -254];
+const F2DOT14_SPECIALS: [i16; 13] = [0x4000, -0x4000, 0x2000, -0x2000, 0x7FFF, -0x8000, 0, 1, -1, 0x6000, 0x1000, 0x4001, 0x3FFF];
+const OFFSET_SPECIALS: [i16; 9] = [-128, 127, -129, 128, 255, 256, -256, i16::MAX, i16::MIN];
+
+/// `delta()`: class (3 bits of the point's head byte) + 0..2 payload bytes; union −32000..=32000
+fn u_delta(u: &mut Unstructured<'_>, class: u8) -> UResult<i16> {
+    Ok(match class & 7 {
+        0 | 7 => 0,
+        1 => *u.choose(&DELTA_SPECIALS)?,
+        2 => u.int_in_range(0i16..=255)?,
+        3 => -u.int_in_range(0i16..=255)?,
+        4 => u.int_in_range(-2000i16..=2000)?,
+        5 => u.int_in_range(-8000i16..=8000)?,
+        _ => u.int_in_range(-32000i16..=32000)?,
+    })
+}
+
+/// `styled_delta(style)`
+fn u_styled_delta(u: &mut Unstructured<'_>, style: u8, class: u8) -> UResult<i16> {
+    Ok(match style {
+        1 => u.int_in_range(1i16..=255)?,
+        2 => {
+            if class & 7 < 6 {
+                0
+            } else {
+                u.int_in_range(-3i16..=3)?
+            }
+        }
+        3 => {
+            let m = u.int_in_range(256i16..=6000)?;
+            if class & 1 == 0 {
+                m
+            } else {
+                -m
+            }
+        }
+        _ => u_delta(u, class)?,
+    })
+}
+
+/// `contour(style)`: 1..=10 points, pattern 0..=4
+fn u_contour(u: &mut Unstructured<'_>, style: u8) -> UResult<ContourSpec> {
+    // one byte: low nibble → length (1..=10, bias to 1 and 2), high nibble → pattern (bias to 0)
+    const LEN: [usize; 16] = [1, 2, 3, 4, 5, 6, 7, 8, 9, 10, 1, 2, 1, 2, 3, 6];
+    const PAT: [u8; 16] = [0, 1, 2, 3, 4, 0, 2, 3, 4, 0, 2, 3, 4, 0, 0, 0];
+    let b: u8 = u.arbitrary()?;
+    let (n, pattern) = (LEN[(b & 15) as usize], PAT[(b >> 4) as usize]);
+    let mut pts = Vec::with_capacity(n);
+    for i in 0..n {
+        if i >= 1 && u.is_empty() {
+            break; // any length 1..=10 is in the domain
+        }
+        // head byte: bit 0 on-curve, bits 1-3 x delta class, bits 4-6 y delta class
+        let h: u8 = u.arbitrary()?;
+        let dx = u_styled_delta(u, style, h >> 1)?;
+        let dy = u_styled_delta(u, style, h >> 4)?;
+        pts.push((dx, dy, h & 1 != 0));
+    }
+    Ok(ContourSpec { pts, pattern })
+}
+
+/// `simple()`: one delta style per glyph, 0..=4 contours, 0..=4 instruction bytes
+fn u_simple(u: &mut Unstructured<'_>) -> UResult<SimpleSpec> {
+    const STYLE: [u8; 10] = [0, 0, 0, 0, 0, 1, 1, 2, 2, 3];
+    let style = *u.choose(&STYLE)?;
+    let b: u8 = u.arbitrary()?;
+    let overlap = b & 1 != 0;
+    let limit = if b & 2 != 0 { 16000i16 } else { 4000 };
+    let n_instr = u.int_in_range(0usize..=4)?;
+    let mut instructions = Vec::with_capacity(n_instr);
+    for _ in 0..n_instr {
+        instructions.push(u.arbitrary::<u8>()?);
+    }
+    let n = u.int_in_range(0usize..=4)?;
+    let mut contours = Vec::with_capacity(n);
+    for _ in 0..n {
+        if u.is_empty() {
+            break; // 0..=4 contours are all in the domain
+        }
+        contours.push(u_contour(u, style)?);
+    }
+    Ok(SimpleSpec { contours, instructions, overlap, limit })
+}
+
+/// `f2dot14()`: any i16, biased to the special values and to |v| <= 1.0
+fn u_f2dot14(u: &mut Unstructured<'_>) -> UResult<i16> {
+    Ok(match u.int_in_range(0u8..=7)? {
+        0..=2 => *u.choose(&F2DOT14_SPECIALS)?,
+        3..=5 => u.int_in_range(-0x4000i16..=0x4000)?,
+        _ => u.arbitrary::<i16>()?,
+    })
+}
+
+/// `transform()`
+fn u_transform(u: &mut Unstructured<'_>) -> UResult<Transform> {
+    Ok(match u.int_in_range(0u8..=13)? {
+        0..=2 => Transform::None,
+        3 | 4 => Transform::Scale(u_f2dot14(u)?),
+        5 | 6 => Transform::XY(u_f2dot14(u)?, u_f2dot14(u)?),
+        7..=11 => Transform::Matrix(u_f2dot14(u)?, u_f2dot14(u)?, u_f2dot14(u)?, u_f2dot14(u)?),
+        12 => {
+            let (a, b, d) = (u_f2dot14(u)?, u_f2dot14(u)?, u_f2dot14(u)?);
+            Transform::Matrix(a, b, b, d)
+        }
+        _ => {
+            let a = u_f2dot14(u)?;
+            let b = u.int_in_range(-0x4000i16..=0x4000)?;
+            Transform::Matrix(a, b, -b, a)
+        }
+    })
+}
+
+/// `anchor()`'s `off()`: −4000..=4000 or i16::MIN / i16::MAX
+fn u_offset(u: &mut Unstructured<'_>) -> UResult<i16> {
+    Ok(match u.int_in_range(0u8..=10)? {
+        0 | 1 => 0,
+        2..=5 => u.int_in_range(-128i16..=127)?,
+        6 | 7 => *u.choose(&OFFSET_SPECIALS)?,
+        _ => u.int_in_range(-4000i16..=4000)?,
+    })
+}
+
+/// `anchor()`
+fn u_anchor(u: &mut Unstructured<'_>) -> UResult<Anchor> {
+    Ok(match u.int_in_range(0u8..=61)? {
+        0..=59 => Anchor::Offset(u_offset(u)?, u_offset(u)?),
+        60 => Anchor::Points(u.int_in_range(0u16..=11)?, u.int_in_range(0u16..=11)?),
+        _ => Anchor::Points(u.arbitrary()?, u.arbitrary()?),
+    })
+}
+
+/// `component_flags()`: any subset of the four common bits; SCALED_COMPONENT_OFFSET rare
+fn u_component_flags(u: &mut Unstructured<'_>) -> UResult<u16> {
+    let b: u8 = u.arbitrary()?;
+    let mut f = 0u16;
+    if b & 1 != 0 {
+        f |= flag::ROUND_XY_TO_GRID;
+    }
+    if b & 2 != 0 {
+        f |= flag::USE_MY_METRICS;
+    }
+    if b & 4 != 0 {
+        f |= flag::OVERLAP_COMPOUND;
+    }
+    if b & 8 != 0 {
+        f |= flag::UNSCALED_COMPONENT_OFFSET;
+    }
+    if b & 0xF0 == 0xF0 {
+        f |= flag::SCALED_COMPONENT_OFFSET;
+    }
+    Ok(f)
+}
+
+/// `component()`
+fn u_component(u: &mut Unstructured<'_>) -> UResult<ComponentSpec> {
+    // chain: weighted 0.45 in the strategy
+    let chain = u.int_in_range(0u8..=8)? >= 5;
+    let target: u32 = u.arbitrary()?;
+    let anchor = u_anchor(u)?;
+    let transform = u_transform(u)?;
+    let flags = u_component_flags(u)?;
+    Ok(ComponentSpec { target, chain, anchor, transform, flags })
+}
+
+/// `composite()` with 1..=`max_components` components (4 in `tables`; `chains` truncates to 2)
+fn u_composite(u: &mut Unstructured<'_>, max_components: usize) -> UResult<CompositeSpec> {
+    let instructions = if u.int_in_range(0u8..=9)? >= 7 {
+        let n = u.int_in_range(0usize..=4)?;
+        let mut v = Vec::with_capacity(n);
+        for _ in 0..n {
+            v.push(u.arbitrary::<u8>()?);
+        }
+        Some(v)
+    } else {
+        None
+    };
+    let n = u.int_in_range(1usize..=max_components)?;
+    let mut components = Vec::with_capacity(n);
+    for i in 0..n {
+        if i >= 1 && u.is_empty() {
+            break;
+        }
+        components.push(u_component(u)?);
+    }
+    Ok(CompositeSpec { components, instructions })
+}
+
+fn u_form(u: &mut Unstructured<'_>) -> UResult<Form> {
+    Ok(match u.int_in_range(0u8..=5)? {
+        0 | 1 => Form::Compact,
+        2 => Form::Long,
+        _ => Form::Mixed,
+    })
+}
+
+/// `encoding()`
+fn u_encoding(u: &mut Unstructured<'_>) -> UResult<Encoding> {
+    Ok(Encoding {
+        coords: u_form(u)?,
+        repeats: u_form(u)?,
+        args: u_form(u)?,
+        transforms: u_form(u)?,
+        seed: u.arbitrary()?,
+    })
+}
+
+/// `layout()`
+fn u_layout(u: &mut Unstructured<'_>) -> UResult<Layout> {
+    let long_loca: bool = u.arbitrary()?;
+    let a = u.int_in_range(0usize..=2)?;
+    let extra = u.int_in_range(0usize..=2)?;
+    let lead = u.int_in_range(0usize..=2)?;
+    let seed: u64 = u.arbitrary()?;
+    let align = if long_loca { [1, 2, 4][a] } else { [2, 2, 4][a] };
+    Ok(Layout {
+        long_loca,
+        align,
+        max_extra_units: extra,
+        leading: lead * 4,
+        seed,
+    })
+}
+
+fn u_opt_u32(u: &mut Unstructured<'_>, some_of_10: u8) -> UResult<Option<u32>> {
+    Ok(if u.int_in_range(0u8..=9)? >= 10 - some_of_10 {
+        Some(u.arbitrary()?)
+    } else {
+        None
+    })
+}
+
+/// bytes → `Case`. First byte: `b % 6 == 5` → a case of `chain_strategy()` (section `chains`),
+/// otherwise a case of `case_strategy()` (section `tables`). Fixed-size choices (special, encoding,
+/// layout, visiting order, renumbering, empty glyph) come first, the glyph lists last.
+pub fn case_from_bytes(data: &[u8]) -> arbitrary::Result<Case> {
+    let mut u = Unstructured::new(data);
+    let chains = u.arbitrary::<u8>()? % 6 == 5;
+    let s = u.int_in_range(0u8..=42)?;
+    let special = if chains {
+        // 12 : 1 : 1, no dangling index
+        match s % 14 {
+            12 => Special::SelfCycle,
+            13 => Special::MutualCycle,
+            _ => Special::None,
+        }
+    } else {
+        match s {
+            40 => Special::SelfCycle,
+            41 => Special::MutualCycle,
+            42 => Special::DanglingIndex,
+            _ => Special::None,
+        }
+    };
+    let reverse_visit: bool = u.arbitrary()?;
+    let renumber = u_opt_u32(&mut u, 4)?;
+    let enc = u_encoding(&mut u)?;
+    let layout = u_layout(&mut u)?;
+    if chains {
+        let leaf = u_simple(&mut u)?;
+        let n = u.int_in_range(4usize..=9)?;
+        let mut composites = Vec::with_capacity(n);
+        for i in 0..n {
+            if i >= 4 && u.is_empty() {
+                break; // 4..=9 links
+            }
+            let mut c = u_composite(&mut u, 2)?;
+            // the same post-processing as `chain_strategy()`
+            c.components[0].chain = true;
+            if let Anchor::Points(p, q) = c.components[0].anchor {
+                c.components[0].anchor = Anchor::Offset((p % 300) as i16 - 150, (q % 300) as i16 - 150);
+            }
+            c.components[0].flags &= !flag::SCALED_COMPONENT_OFFSET;
+            composites.push(c);
+        }
+        return Ok(Case {
+            simples: vec![leaf],
+            empty_at: None,
+            composites,
+            special,
+            enc,
+            layout,
+            reverse_visit,
+            renumber,
+        });
+    }
+    let empty_at = u_opt_u32(&mut u, 3)?;
+    let ns = u.int_in_range(1usize..=4)?;
+    let nc = u.int_in_range(0usize..=8)?;
+    let mut simples = Vec::with_capacity(ns);
+    for i in 0..ns {
+        if i >= 1 && u.is_empty() {
+            break; // 1..=4 simple glyphs
+        }
+        simples.push(u_simple(&mut u)?);
+    }
+    let mut composites = Vec::with_capacity(nc);
+    for _ in 0..nc {
+        if u.is_empty() {
+            break; // 0..=8 composites
+        }
+        composites.push(u_composite(&mut u, 4)?);
+    }
+    Ok(Case {
+        simples,
+        empty_at,
+        composites,
+        special,
+        enc,
+        layout,
+        reverse_visit,
+        renumber,
+    })
+}
